@@ -304,6 +304,25 @@ func (sc *c20Scenario) serve(w http.ResponseWriter, r *http.Request, closureIdx 
 	}
 }
 
+// c20SetCode: "the status code that invocation set" read literally — the code it passed to
+// WriteHeader, 200 when it never called it.  For a script that writes before it calls WriteHeader
+// this is not the status the client got (the first Write committed 200 and net/http ignores the
+// late WriteHeader); the recorder of the pinned code reports the code passed to WriteHeader.
+// Both readings of the sentence are accepted for the "finished" record; the client side is
+// held to what net/http does with the same calls.
+func c20SetCode(q *c20Req) int {
+	code := 200
+	for _, op := range q.ops {
+		switch op.kind {
+		case 'h':
+			code = op.n
+		case 'R', 'P':
+			return code
+		}
+	}
+	return code
+}
+
 func parseC20Req(s string) c20Req {
 	f := strings.Split(s, ":")
 	if len(f) != 7 {
@@ -497,7 +516,7 @@ func c20Round(sc *c20Scenario, mw *httputil.LogMiddleware, shared http.Handler, 
 			}
 		case len(inv.finished) != 1:
 			inv.failf("missing-record", "%d \"finished\" records on the request's goroutine", len(inv.finished))
-		case !panics && inv.finished[0] != wantCode:
+		case !panics && inv.finished[0] != wantCode && inv.finished[0] != c20SetCode(inv.req):
 			inv.failf("finished-code", "\"finished\" reports %d, the invocation set %d", inv.finished[0], wantCode)
 		}
 		if direct == "ok" && inv.direct != "" {
@@ -816,6 +835,16 @@ func c20GenScript(rng *rand.Rand) string {
 	pause()
 	if rng.IntN(3) == 0 {
 		add("l")
+	}
+	if rng.IntN(5) == 0 {
+		// a Write before any WriteHeader (an empty one half of the time) commits the response
+		// with 200: a WriteHeader after it changes nothing
+		var b []byte
+		if rng.IntN(2) == 0 {
+			b = []byte{byte(rng.IntN(256))}
+		}
+		add("w" + hx(b))
+		pause()
 	}
 	if rng.IntN(5) < 3 {
 		code := pick(rng, 200, 201, 204, 301, 400, 403, 404, 418, 500, 503, 599, 200+rng.IntN(400), 101, 101, 600+rng.IntN(400))
